@@ -45,7 +45,10 @@ func post(c *ev.Check, outs []*run.Outcome) {
 	c.Require("shapes.rejected.trunc-field", 5)
 	c.Require("migrations_adopted", 1)
 	c.Require("overlap_bans_adopted_mid_round", 10*min)
-	c.Require("overlap_attempts_after_ban", 10*min)
+	c.Require("overlap_attempts_after_ban", 8*min)
+	c.Require("overlap_banned_holder_answered_late", 3*min)
+	c.Require("ban_records_with_shorter_location", 10*min)
+	c.Require("state_equals_file_checks", 200*min)
 	c.Require("outage_rounds_kept_coming", 2)
 	c.Require("outage_recovered_sync_succeeded", 2)
 	c.Require("max.outage_ticks_survived", 220)
